@@ -45,6 +45,9 @@ CHECKS = {
  'C07': ('dense log-grid enumeration + Hypothesis random points; differential against an independent minimiser of the CKS20 bound and the exact Gaussian delta (Balle-Wang); metamorphic monotonicity and inverse relations',
          'Every grid point (61x61 for cdp_delta, 16x16 for cdp_rho and cdp_eps; 161/41 thorough) is checked on every run for soundness, tightness, monotonicity against its neighbours and the inverse relations; random points and factor-shifted pairs are added by Hypothesis.',
          'Trusts the reference optimiser (grid over alpha-1 in [1e-12,1e9] + golden section) and scipy log_ndtr. F13 (alpha floor 1.01) is a listed known finding; clamped results (eps=0) are checked to be the clamp value.'),
+ 'C20': ('Hypothesis-generated quality vectors / parameters per primitive; numpy.random interposer captures the p= vector and the scale/size arguments; differential against a long-double softmax reference; metamorphic constant shift; call sequences on one Mechanism object',
+         'Generated-input search over all selection primitives in mechanism.py, mst.py, adaptive_grid.py, mwem+pgm.py and the noise helpers/samplers; probabilities compared in log space with a magnitude-aware tolerance.',
+         'autodp calibrator replaced by a recording test double; eps=inf only with sensitivity 1 (the only way callers use it); permute_and_flip and the generalized mechanism score transform are outside the statement.'),
 }
 NOT_YET = 'check not built yet (work in progress in this session); see DESIGN.md for the planned check'
 
